@@ -148,7 +148,8 @@ CHECKS = {
         "cycle, every clear pulse must be explained by a written one on that very bit and vice versa. The sweep family "
         "enumerates the offset of a second trigger from -4 to +5 cycles around the clear for every source kind and bus "
         "width; the rest is seeded sampling.",
-   note="Software writes whole registers (all words, address order). The clients (Timer, UART, GPIO) are exercised in C19.",
+   note="Software writes whole registers (all words, address order). Client GPIOIn(with_irq) (per-pin mode/edge registers in front "
+        "of the manager) is run as family 'gpio'; the Timer and UART clients are exercised in C19.",
    tech="deterministic simulation, clear/trigger alignment enumerated cycle by cycle + seeded waveform/access interleavings, per-cycle model"),
  "C09": dict(cat="exploration", ref="DESIGN.md 5.C09",
    text="Real AXILite2Wishbone, Wishbone2AXILite, AXILiteDown/Up/Converter (ratios 2/4/8), AXILiteSRAM, AXILite2CSR (+CSR SRAM), "
